@@ -24,8 +24,11 @@ def make_logged_component(rng, nx, na, levels, kpl, cost_mode, log, name='lc', n
     coef = [rng.randint(-3, 3) / 2 for _ in range(nx)]
     counter = {'n': 0}
 
+    shift = {'v': 0.0}      # changed by the harness between a clear() and the next history ("the model was updated")
+
     def f(x, alpha):
-        return sum(c * math.sin(3.0 * xv + k) for k, (c, xv) in enumerate(zip(coef, x))) + 0.25 * sum((a + 1) * (k + 1) for k, a in enumerate(alpha))
+        return sum(c * math.sin(3.0 * xv + k) for k, (c, xv) in enumerate(zip(coef, x))) + 0.25 * sum((a + 1) * (k + 1) for k, a in enumerate(alpha)) + shift['v']
+    f.shift = shift
 
     def cost_of(alpha):
         counter['n'] += 1
@@ -34,6 +37,8 @@ def make_logged_component(rng, nx, na, levels, kpl, cost_mode, log, name='lc', n
             return base
         if cost_mode == 'small':
             return 0.125 * base
+        if cost_mode == 'nondyadic':
+            return [0.1, 0.3, 0.7, 1.1][int(sum(alpha)) % 4]
         return base + 0.5 * counter['n']          # varies from call to call
 
     def model(inputs, model_fidelity=None):
@@ -59,7 +64,7 @@ def run_histories(ctx: Ctx):
     for n in range(ctx.pick(24, 300)):
         nx = rng.randint(1, 3); na = rng.randint(0, 2) if nx < 3 else rng.randint(0, 1); kpl = rng.randint(1, 3 if nx < 3 else 2)
         levels = [rng.randint(1, 2) for _ in range(nx)]
-        cost_mode = rng.choice(['constant', 'constant', 'small', 'none'])
+        cost_mode = rng.choice(['constant', 'nondyadic', 'nondyadic', 'small', 'none'])
         log = []
         comp, f, doms = make_logged_component(rng, nx, na, levels, kpl, cost_mode, log, name=f'lc{n}', norms=rng.random() < 0.3)
         system = System(comp, name=f'g{n}')
@@ -75,6 +80,16 @@ def run_histories(ctx: Ctx):
             return orig_refine(alpha, beta, *a, **k)
         td.refine = rec_refine
         adaptive = rng.random() < 0.4
+        if rng.random() < 0.3:
+            # an earlier history on the same component, then clear() and a changed model: nothing of it may survive
+            pre = set()
+            batches.append([])
+            for _ in range(rng.randint(1, 4)):
+                m0 = margin(pre, mx)
+                if not m0:
+                    break
+                c0 = rng.choice(m0); comp.activate_index(tuple(c0[:na]), tuple(c0[na:])); pre.add(c0)
+            comp.clear(); td.clear(); comp.model_costs.clear(); log.clear(); f.shift['v'] = 1.5; batches.clear()
         case = {'history': n, 'nx': nx, 'na': na, 'kpl': kpl, 'levels': levels, 'cost_mode': cost_mode, 'adaptive': adaptive}
         nsteps = rng.randint(2, 7 if nx < 3 else 4)
         active = set()
@@ -96,6 +111,14 @@ def run_histories(ctx: Ctx):
                     c = rng.choice(m)
                     comp.activate_index(tuple(c[:na]), tuple(c[na:]))
                     active.add(c)
+                    if rng.random() < 0.3:      # requests that must be ignored: already active (incl. the all-zero index), not a candidate
+                        nb = len(batches)
+                        for bad in (rng.choice(sorted(active)), tuple([0] * len(mx)), tuple(v + 2 for v in c)):
+                            batches.append([])
+                            comp.activate_index(tuple(bad[:na]), tuple(bad[na:]))
+                            if batches[-1]:
+                                ctx.violate('C09:ignored-request-refines-grid', f'request {bad} (already active or inadmissible) refined the training grid', case)
+                            batches.pop()
                     system.train_history.append({'component': comp.name, 'alpha': tuple(c[:na]), 'beta': tuple(c[na:]), 'num_evals': 0,
                                                  'added_cost': 0.0, 'added_error': 0.0})
                 calls_per_batch.append(log[n0:])
@@ -147,7 +170,7 @@ def run_histories(ctx: Ctx):
                 got_c = {tuple(a): v for a, v in cost_alloc.get(comp.name, {}).items()}
                 for alpha in real_n:
                     if abs(got_n.get(alpha, 0) - real_n[alpha]) > 1e-9 or abs(got_c.get(alpha, 0.0) - real_c[alpha]) > 1e-9 * (1 + real_c[alpha]):
-                        ctx.violate('C09:allocation-untruthful' if cost_mode in ('constant', 'small') else 'C09:allocation-untruthful-varying-cost',
+                        ctx.violate('C09:allocation-untruthful' if cost_mode in ('constant', 'small', 'nondyadic') else 'C09:allocation-untruthful-varying-cost',
                                     f'fidelity {alpha}: allocation reports {got_n.get(alpha)} evaluations / cost {got_c.get(alpha)}, actually '
                                     f'{real_n[alpha]} evaluations / cost {real_c[alpha]}', case); break
         # ---- correspondence: which (fidelity, coordinate) pairs are evaluated, in which order
